@@ -18,11 +18,14 @@ MANIFEST = {
             "Assembler+StringLogger path by running both on the same lines; the Lean reader (the theorems' predicate) judges every text "
             "the real code produced for well-formed inputs.",
     "note": "Trusted: Lean kernel; Spec/FormatText.lean (register names from the manuals, the reader); gen_formattabs.py; harness/driver/diff. "
-            "Not modelled: the explanatory {a|b|c} immediate annotations of kExplainImms (stripped before comparison, the reader skips "
-            "them), node-list formatting of Builder/Compiler (format_node), format_feature/type_id/data. AArch64 operand and named-label "
-            "parse-back are monitored on every run, not proved for all inputs. The encoder's bytes are inputs here (C01/C02).",
+            "The explanatory {a|b|c} immediate annotations of kExplainImms are modelled (Model/FormatExplain.lean, tables regenerated from "
+            "x86formatter.cpp), compared in full on `inst`/`emit` lines and judged against the immediate by an independent reader "
+            "(Spec/FormatExplain.lean: every word decoded into a claim `imm & mask = value`); annotation_truth_* prove the claims for every "
+            "immediate byte for the families without an open finding; the line reader itself skips the annotation (the line theorems are "
+            "about the text without it). Not modelled: func/ret/invoke/sentinel/const-pool nodes, format_feature/type_id/data. "
+            "The encoder's bytes are inputs here (C01/C02).",
 }
-MODS = ["AsmjitVerif.Props.C20", "AsmjitVerif.Props.C20Names", "AsmjitVerif.Props.C20Mem", "AsmjitVerif.Props.C20Read", "AsmjitVerif.Props.C20Line", "AsmjitVerif.Props.C20A64Line", "AsmjitVerif.Props.C20Node", "AsmjitVerif.Props.C20Column"]
+MODS = ["AsmjitVerif.Props.C20", "AsmjitVerif.Props.C20Names", "AsmjitVerif.Props.C20Mem", "AsmjitVerif.Props.C20Read", "AsmjitVerif.Props.C20Line", "AsmjitVerif.Props.C20A64Line", "AsmjitVerif.Props.C20Node", "AsmjitVerif.Props.C20Column", "AsmjitVerif.Props.C20Virt", "AsmjitVerif.Props.C20NodeNum", "AsmjitVerif.Props.C20Explain", "AsmjitVerif.Props.C20ExplainA", "AsmjitVerif.Props.C20ExplainB", "AsmjitVerif.Props.C20ExplainC", "AsmjitVerif.Props.C20ExplainD", "AsmjitVerif.Props.C20ExplainE", "AsmjitVerif.Props.C20ExplainF"]
 
 M64 = (1 << 64) - 1
 FF = {"mc": 0x1, "alias": 0x8, "explain": 0x10, "heximm": 0x20, "hexoff": 0x40, "casts": 0x100, "pos": 0x200, "regtype": 0x400}
@@ -474,6 +477,50 @@ class Gen:
                 comment = ("note %d" % rng.randrange(100)).encode().hex()
             self.add("emit %d %x %s %s %s" % (iid, opts, extra, comment, " ".join(ops)), True)
 
+    EXPLAINED = (
+        "vblendpd blendpd vblendps blendps vcmppd vcmpps vcmpsd vcmpss cmppd cmpps cmpsd cmpss vdbpsadbw vdppd vdpps dppd dpps vmpsadbw "
+        "mpsadbw vpblendw pblendw vpblendd vpclmulqdq pclmulqdq vroundpd vroundps vroundsd vroundss roundpd roundps roundsd roundss vshufpd "
+        "shufpd vshufps shufps vcvtps2ph vperm2f128 vperm2i128 vpermilpd vpermilps vpshufd pshufd vpshufhw vpshuflw pshufhw pshuflw pshufw "
+        "vfixupimmpd vfixupimmps vfixupimmsd vfixupimmss vfpclasspd vfpclassps vfpclasssd vfpclassss vgetmantpd vgetmantps vgetmantsd "
+        "vgetmantss vpcmpb vpcmpd vpcmpq vpcmpw vpcmpub vpcmpud vpcmpuq vpcmpuw vpcomb vpcomd vpcomq vpcomw vpcomub vpcomud vpcomuq vpcomuw "
+        "vpermq vpermpd vpternlogd vpternlogq vrangepd vrangeps vrangesd vrangess vreducepd vreduceps vreducesd vreducess vrndscalepd "
+        "vrndscaleps vrndscalesd vrndscaless vshuff32x4 vshuff64x2 vshufi32x4 vshufi64x2 "
+        # neighbours that must NOT get an annotation
+        "vpalignr palignr vpermil2pd vextractf128 vinsertf128 vpsrldq shl add vpshufb insertps").split()
+
+    def explain_block(self, ids, quick):
+        """every instruction FormatterInternal_explain_const knows (and some it does not) with register operands of the three vector
+        widths / memory only, over immediates that reach every field value; formatted (no encoder involved), then a few emitted"""
+        rng = self.rng
+        imms = sorted(set([0, 1, 2, 3, 4, 5, 7, 8, 9, 0xF, 0x10, 0x1B, 0x40, 0x55, 0x80, 0xAA, 0xB1, 0xE4, 0xFF, 0x100, 0x1FF, -1, -128] +
+                          [rng.randrange(256) for _ in range(6 if quick else 60)]))
+        for name in self.EXPLAINED:
+            if name not in ids:
+                continue
+            for shape in ("r.11.1 r.11.2", "r.12.3 r.12.4 r.12.5", "r.13.6 r.13.7 m.64.0.0.6/3.-.0.0.0.0", "m.16.0.0.6/3.-.0.0.0.0",
+                          "r.16.1 r.13.2 r.11.3", "r.11.1 r.12.2"):
+                for v in (imms if shape == "r.13.6 r.13.7 m.64.0.0.6/3.-.0.0.0.0" or not quick else rng.sample(imms, 5)):
+                    self.add("inst %d 0 - %s i.%d" % (ids[name], shape, v), True)
+            # two immediates on one line, immediate first
+            self.add("inst %d 0 - i.%d r.12.1 i.%d" % (ids[name], rng.randrange(256), rng.randrange(256)), True)
+
+    def explain_emit_block(self, ids):
+        rng = self.rng
+        for name, shapes in (("shufps", ["r.11.1 r.11.2"]), ("vshufps", ["r.11.1 r.11.2 r.11.3", "r.12.1 r.12.2 r.12.3", "r.13.1 r.13.2 r.13.3"]),
+                             ("vshufpd", ["r.12.1 r.12.2 r.12.3", "r.13.1 r.13.2 r.13.3"]), ("pshufd", ["r.11.1 r.11.2"]),
+                             ("vcmpps", ["r.11.1 r.11.2 r.11.3", "r.16.1 r.13.2 r.13.3"]), ("cmppd", ["r.11.1 r.11.2"]),
+                             ("vpternlogd", ["r.13.1 r.13.2 r.13.3"]), ("vblendpd", ["r.12.1 r.12.2 r.12.3"]),
+                             ("roundps", ["r.11.1 r.11.2"]), ("vperm2f128", ["r.12.1 r.12.2 r.12.3"]), ("vpermq", ["r.12.1 r.12.2", "r.13.1 r.13.2"]),
+                             ("vshuff32x4", ["r.12.1 r.12.2 r.12.3", "r.13.1 r.13.2 r.13.3"]), ("pclmulqdq", ["r.11.1 r.11.2"]),
+                             ("vrndscaleps", ["r.13.1 r.13.2"]), ("vfpclassps", ["r.16.1 r.13.2"]), ("vgetmantpd", ["r.13.1 r.13.2"]),
+                             ("mpsadbw", ["r.11.1 r.11.2"]), ("vpcmpud", ["r.16.1 r.13.2 r.13.3"]), ("vrangeps", ["r.13.1 r.13.2 r.13.3"]),
+                             ("vfixupimmps", ["r.13.1 r.13.2 r.13.3"]), ("palignr", ["r.11.1 r.11.2"])):
+            if name not in ids:
+                continue
+            for sh in shapes:
+                for v in (0, 0x1B, 0xE4, 0xFF, rng.randrange(256)):
+                    self.add("emit %d 0 - - %s i.%d" % (ids[name], sh, v), True)
+
     def target_block(self, names, ids):
         """deterministic cases every run must contain (classes a careless change is most likely to break unnoticed):
         (a) an unbound-label memory operand TOGETHER with an immediate under kMachineCode (dots vs immediate bytes of the column),
@@ -642,6 +689,11 @@ def gen_ops(rng, tier):
             for f in (0x0, 0x60, 0x500):
                 g.set_flags(f)
                 g.target_block(names, ids)
+        if not comp and arch != "a64":
+            for f in (0x10, 0x30, 0x18):
+                g.set_flags(f)
+                g.explain_block(ids, quick)
+                g.explain_emit_block(ids)
         if not comp:
             first = True
             for f in ((0x1, 0x0, 0x61, 0x9, 0x11, 0x79) if quick else [x for x in all_flags if x & 0x500 == 0]):
@@ -752,6 +804,41 @@ def monitor_line(op, ans, pos=0):
     return None
 
 
+def explain_monitor_line(op, ans, arch, flags):
+    """the annotation glued to the only immediate of an x86 line says true things about it (Spec/FormatExplain.lean)"""
+    if arch.startswith("a64") or not flags & 0x10:
+        return None
+    w = op.split()
+    if w[0] == "inst" and ans.startswith("="):
+        toks, text = w[4:], ans
+    elif w[0] == "emit" and ans.startswith("T "):
+        toks, text = w[5:], "=" + (split_emit_answer(ans)[0] or "").split(" ; ")[0].split("; ")[0]
+    else:
+        return None
+    imms = [t for t in toks if t.startswith("i.")]
+    if len(imms) != 1 or "-" in toks or imms[0].count(".") != 1:
+        return None
+    vec = 16
+    for t in toks:
+        if t.startswith("r."):
+            vec = max(vec, {12: 32, 13: 64}.get(int(t.split(".")[1]), 16))
+    return "mon_expl %d %d %d %s" % (int(w[1]) & 0xFFFF, vec, int(imms[0][2:]) & 0xFF, text)
+
+
+_X86_NAMES = []
+
+
+def explain_family(op):
+    if not _X86_NAMES:
+        _X86_NAMES.extend(header_ids("x64")[0])
+    iid = int(op.split()[1]) & 0xFFFF
+    name = _X86_NAMES[iid] if iid < len(_X86_NAMES) else "?"
+    for k, fam in (("fpclass", "vfpclass"), ("fixupimm", "vfixupimm"), ("mpsadbw", "mpsadbw"), ("rndscale", "vrndscale-vreduce"), ("vreduce", "vrndscale-vreduce")):
+        if k in name:
+            return fam
+    return name
+
+
 def op_class(op, archs, i):
     w = op.split()
     kind = w[0]
@@ -820,13 +907,15 @@ def generate():
 def run(res):
     rng = vlib.rng_for(res.seed, PID)
     res.assumptions += [
-        "kExplainImms annotations `{a|b|c}` are not modelled: removed from the implementation text before the comparison, skipped by the reader",
+        "kExplainImms annotations `{a|b|c}`: modelled and compared in full on inst/emit lines, judged against the immediate by monExplain on "
+        "well-formed lines with exactly one immediate; the line reader (monInstruction) skips them; on node texts they are removed before comparing",
         "the reader judges texts of well-formed inputs only (architecturally valid register ids, valid labels/virtual registers, sizes/segments "
         "the syntax can express, label and virtual-register names that are identifiers and do not collide with register names); "
         "ill-formed inputs are compared model vs implementation only",
         "the bytes appended by the encoder and the size/position of the unresolved displacement are inputs of the log-line model (C01/C02/C03 own them)",
-        "Builder nodes: inst/label/align/embed-data/comment/section through Formatter::format_node and format_node_list are modelled and tied; "
-        "Compiler-only nodes (func/ret/invoke/sentinel/const-pool/embed-label) and the kPositions prefix are not",
+        "Builder nodes: inst/label/align/embed-data/embed-label/embed-label-delta/comment/section and the kPositions prefix through "
+        "Formatter::format_node and format_node_list are modelled, monitored and tied (parse-back proved for all of them except "
+        "`.label (a - b)`, inline comments and the position prefix); func/ret/invoke/sentinel/const-pool nodes are not modelled",
     ]
     broken = []
 
@@ -899,16 +988,17 @@ def run(res):
             continue
         if o.startswith("bind "):
             continue        # may legitimately fail (a short jump bound too far away); the model keeps no offsets
-        r2 = canon_impl(r, fl[i] & 0x10)
+        # the kExplainImms annotations are modelled for `inst` and `emit` (compared in full); node texts: still removed before comparing
+        r2 = r if o.startswith(("inst ", "emit ")) else canon_impl(r, fl[i] & 0x10)
+        if o.startswith(("inst ", "emit ")) and canon_impl(r, fl[i] & 0x10) != r:
+            skipped_annot += 1          # now: number of compared lines that carry an annotation
         if o.startswith("emit "):
-            if r2 != r:
-                skipped_annot += 1      # the annotation also moved the padding of the column: line judged by the reader only
-                continue
             r2 = "T " + (split_emit_answer(r2)[0] or "")
         if r2 != m:
             diffs.append(i)
     # monitor: the reader judges the implementation's text of every well-formed query
     mon_ops, idx = [], []
+    n_expl = 0
     pending_pos = 0
     for i, (o, r) in enumerate(zip(ops, impl)):
         if o.startswith("pos "):
@@ -923,6 +1013,10 @@ def run(res):
             ml = monitor_line(o, r, this_pos)
             if ml:
                 mon_ops.append(ml); idx.append(i)
+        ml = explain_monitor_line(o, r, archs[i], fl[i]) if wf[i] else None     # ill-formed operands may end the line early
+        if ml:
+            mon_ops.append(ml); idx.append(i)
+            n_expl += 1
     mon, rc3, err3 = vlib.run_model("C20", mon_ops)
     if len(mon) != len(mon_ops):
         res.violation("monitor protocol failure (%d answers for %d lines) %s" % (len(mon), len(mon_ops), err3[-300:]), {}, False, key="protocol")
@@ -952,6 +1046,7 @@ def run(res):
     res.coverage["exhaustive"] = False
     res.coverage["input_distribution"] = kinds
     res.coverage["monitored_answers"] = judged
+    res.coverage["imm_annotations_judged_against_the_immediate"] = n_expl
     res.coverage["emit_accepted_by_assembler"] = accepted
     implicit_mem = sum(1 for o, r in zip(ops, impl) if o.startswith("emit ") and r.startswith("T ") and
                        r.split(";")[0].split()[1:2] and r.split(";")[0].split()[1].split(".")[0] in ("monitor", "monitorx", "maskmovq", "maskmovdqu", "vmaskmovdqu")
@@ -982,8 +1077,10 @@ def run(res):
     res.coverage["line_theorem_wf_fraction_of_emitted_lines"] = {
         k: {"inside": a_, "emitted": b_, "fraction": round(a_ / b_, 4) if b_ else None} for k, (a_, b_) in frac.items()}
     res.coverage["line_theorem_wf_note"] = ("x86_line_parse_back / a64_line_parse_back quantify over all lines satisfying WFLine / "
-        "(OpOKA, A64OpsOK); a line is outside only if it carries a kExplainImms annotation (text not modelled) or an operand "
-        "outside the proved kinds; the classifier op_in_theorem mirrors the WF predicates")
+        "(OpOKA, A64OpsOK); a line is outside only if it carries a kExplainImms annotation or an operand outside the proved kinds; "
+        "annotated lines (many since round 9: a dedicated block emits them) are covered differently: text compared in full with the model, "
+        "annotation judged by monExplain (theorems annotation_truth_* for every immediate byte), rest of the line judged by the reader after "
+        "skipping the annotation; `dropImmAnnotations (annotated text) = plain text` is NOT proved, so they are not counted inside")
     if not all(tgt.values()):
         broken.append("generator no longer reaches a targeted class: %s" % tgt)
     res.coverage["machine_code_column_on_real_byte_stream"] = (
@@ -993,7 +1090,7 @@ def run(res):
         "validation), the harness returns the bytes the CodeHolder section buffer grew by, the model's log line is computed from "
         "exactly those bytes and compared with the logger text, and monLogLine reads the column back and compares it byte for byte "
         "with them (dots only over a zero placeholder of an instruction that refers to a label)" % accepted)
-    res.coverage["emit_lines_with_imm_annotation_not_compared"] = skipped_annot
+    res.coverage["lines_with_imm_annotation_compared_in_full"] = skipped_annot
     res.coverage["traces_validated_against_impl"] = len(ops)
     ex = [i for i, o in enumerate(ops) if o.startswith(("op m.", "op am.", "inst ", "emit ")) and impl[i][:1] in ("=", "T")]
     res.add_samples([{"op": ops[i], "impl": impl[i], "model": model_full[i]} for i in (ex[0], ex[len(ex) // 3], ex[len(ex) // 2], ex[-1])] if ex else [])
@@ -1003,6 +1100,18 @@ def run(res):
         seen = set()
         for i, m in bad:
             key = "text:" + op_class(ops[i], archs, i)
+            if "immediate-annotation" in m:
+                key = "explain:" + explain_family(ops[i])
+                if key in seen:
+                    continue
+                seen.add(key)
+                n = sum(1 for j, m2 in bad if "immediate-annotation" in m2 and explain_family(ops[j]) == explain_family(ops[i]))
+                rp = [o for o in ops[:i + 1] if o.startswith("init ")][-1:] + state_prefix(ops, i)[1:] + [ops[i]]
+                res.violation("the kExplainImms annotation says something false about the immediate: %s -> %r ; reader says %s "
+                              "(%d inputs of this instruction family)" % (ops[i], impl[i], m, n),
+                              {"ops": rp, "impl": impl[i], "model": model_full[i], "monitor": m,
+                               "how": "feed the ops to .build/<tree>/asan/h_c20_* ; vdriver C20 judges `mon_expl` lines"}, True, key=key)
+                continue
             if ops[i].startswith("op am.") and re.match(r"op am\.[^.]+\.[^-][^.]*\.(\d+)\.0\.", ops[i]) and int(re.match(r"op am\.[^.]+\.[^.]+\.(\d+)\.", ops[i]).group(1)) != 0:
                 key = "text:a64:mem-extend-shift0"
             if key in seen:
@@ -1041,7 +1150,15 @@ def replay(data):
     impl, rc, err = vlib.run_lines([str(h)], ops)
     for o, r in zip(ops, impl):
         print(o, "->", r)
-    mon = [o if o.split()[0] in STATE_OPS else monitor_line(o, r) for o, r in zip(ops, impl)]
+    mon = []
+    arch, flags = "x64", 0
+    for o, r in zip(ops, impl):
+        if o.startswith("init "):
+            arch = o.split()[1]
+        if o.startswith("flags "):
+            flags = int(o.split()[1], 16)
+        mon.append(o if o.split()[0] in STATE_OPS else monitor_line(o, r))
+        mon.append(None if o.split()[0] in STATE_OPS else explain_monitor_line(o, r, arch, flags))
     mon = [m for m in mon if m]
     out, _, _ = vlib.run_model("C20", mon)
     for m, r in zip(mon, out):
